@@ -5,6 +5,10 @@ type nat =
 | O
 | S of nat
 
+type ('a, 'b) sum =
+| Inl of 'a
+| Inr of 'b
+
 val fst : ('a1 * 'a2) -> 'a1
 
 val snd : ('a1 * 'a2) -> 'a2
@@ -33,6 +37,8 @@ val nth : nat -> 'a1 list -> 'a1 -> 'a1
 
 val nth_error : 'a1 list -> nat -> 'a1 option
 
+val remove : ('a1 -> 'a1 -> bool) -> 'a1 -> 'a1 list -> 'a1 list
+
 val rev : 'a1 list -> 'a1 list
 
 val rev_append : 'a1 list -> 'a1 list -> 'a1 list
@@ -40,6 +46,10 @@ val rev_append : 'a1 list -> 'a1 list -> 'a1 list
 val map : ('a1 -> 'a2) -> 'a1 list -> 'a2 list
 
 val flat_map : ('a1 -> 'a2 list) -> 'a1 list -> 'a2 list
+
+val existsb : ('a1 -> bool) -> 'a1 list -> bool
+
+val forallb : ('a1 -> bool) -> 'a1 list -> bool
 
 val firstn : nat -> 'a1 list -> 'a1 list
 
@@ -109,6 +119,8 @@ module Coq_Pos :
   val to_nat : positive -> nat
 
   val of_succ_nat : nat -> positive
+
+  val eq_dec : positive -> positive -> bool
  end
 
 module N :
@@ -144,6 +156,8 @@ module N :
   val to_nat : n -> nat
 
   val of_nat : nat -> n
+
+  val eq_dec : n -> n -> bool
  end
 
 module Z :
@@ -477,6 +491,182 @@ val show_sresult : sresult -> bytes list -> bytes list -> str
 
 val run_stb : str list -> str
 
+type fname =
+| Seg of n
+| Meta
+| MetaTmp
+| Other of n
+
+type mkind =
+| MCall
+| MAck
+
+type event =
+| OpenExcl of fname
+| OpenCreat of fname
+| OpenW of fname
+| Fallocate of fname * n * n * n
+| Pwrite of fname * n * n
+| Truncate of fname * n
+| Fsync of fname
+| Fdatasync of fname
+| FsyncDir
+| Unlink of fname
+| Rename of fname * fname
+| Close of fname
+| Mark of mkind * n * n
+
+type viol =
+| VMissingFileFsync
+| VMissingDirFsync
+| VDeleteNoDirFsync
+| VNonExclCreate
+| VBadFallocate
+| VNotPreallocated
+| VSegTruncated
+| VSegRenamed
+| VUnknownFile
+| VMetaNotRenamed
+| VMetaTmpNotSynced
+| VMetaDirNotSynced
+| VMetaNotSynced
+| VMetaUnlinked
+
+val memb : n -> n list -> bool
+
+val del : n -> n list -> n list
+
+val add0 : n -> n list -> n list
+
+type cst = { known : n list; nofalloc : n list; dirty : n list;
+             pendent : n list; written : n list; unl : bool;
+             tmp_exists : bool; tmp_dirty : bool; tmp_open : bool;
+             tmp_written : bool; meta_exists : bool; meta_dirty : bool;
+             ren_pending : bool }
+
+val c0 : cst
+
+val set_segs :
+  cst -> n list -> n list -> n list -> n list -> n list -> bool -> cst
+
+val set_meta :
+  cst -> bool -> bool -> bool -> bool -> bool -> bool -> bool -> cst
+
+val is_nil : n list -> bool
+
+val ack_check : cst -> viol option
+
+val tmp_write : cst -> (cst, viol) sum
+
+val meta_write : cst -> (cst, viol) sum
+
+val step : n -> cst -> event -> (cst, viol) sum
+
+val check : n -> cst -> nat -> event list -> (cst, nat * viol) sum
+
+val final_ok : cst -> bool
+
+val discipline_res : n -> event list -> (nat * viol) option
+
+type fsop =
+| FCreate of n
+| FOpenWriter of n
+| FWrite of n * n * n
+| FSync of n
+| FClose of n
+| FDelete of n
+| FMetaInit
+| FMetaCommit
+| FMark of mkind * n * n
+
+type handles = (n * bool) list
+
+val h_get : n -> handles -> bool option
+
+val h_del : n -> handles -> handles
+
+val h_set : n -> bool -> handles -> handles
+
+val meta_init_events : event list
+
+val meta_commit_events : event list
+
+val fs_step : n -> handles -> fsop -> event list * handles
+
+val fs_trace_from : n -> handles -> fsop list -> event list
+
+val fs_trace : n -> fsop list -> event list
+
+val colon : n
+
+val split_colon_aux : str -> str -> str list
+
+val fields : str -> str list
+
+val parse_fname : str -> fname option
+
+val show_fname : fname -> str
+
+val t_x : str
+
+val t_c : str
+
+val t_o : str
+
+val t_fa : str
+
+val t_w : str
+
+val t_tr : str
+
+val t_fs : str
+
+val t_fd : str
+
+val t_fD : str
+
+val t_u : str
+
+val t_r : str
+
+val t_cl : str
+
+val t_mc : str
+
+val t_ma : str
+
+val parse_event : str -> event option
+
+val parse_all : (str -> 'a1 option) -> str list -> 'a1 list -> 'a1 list option
+
+val jc : str list -> str
+
+val show_event : event -> str
+
+val show_viol : viol -> str
+
+val s_viol : str
+
+val run_fst : str list -> str
+
+val t_cr : str
+
+val t_ow : str
+
+val t_wr : str
+
+val t_sy : str
+
+val t_de : str
+
+val t_mi : str
+
+val parse_fsop : str -> fsop option
+
+val s_dash1 : str
+
+val run_fso : str list -> str
+
 val k_enc : str
 
 val k_dec : str
@@ -484,5 +674,9 @@ val k_dec : str
 val k_mig : str
 
 val k_stb : str
+
+val k_fst : str
+
+val k_fso : str
 
 val run_line : str -> str
